@@ -636,7 +636,25 @@ def _bfs_depth(src: str) -> str:
     return src.replace(a, b)
 
 
+def _edit_flatten_helper(src: str) -> str:
+    """the copy / unwrap / remove_identity preamble of the emitter-depth metrics moves into a helper that skips all of it when the circuit
+    has no wrapper — identities are then not dropped"""
+    pre = "        c = circuit.copy()\n        c.unwrap_nodes()\n        c.remove_identity()\n"
+    if src.count(pre) < 3:
+        raise LookupError("preamble of the emitter-depth metrics")
+    out = src.replace(pre, "        c = _flattened(circuit)\n")
+    out += ("\n\ndef _flattened(circuit):\n"
+            "    if not circuit.node_dict.get(\"OneQubitGateWrapper\"):\n"
+            "        return circuit\n"
+            "    c = circuit.copy()\n"
+            "    c.unwrap_nodes()\n"
+            "    c.remove_identity()\n"
+            "    return c\n")
+    return out
+
+
 KNOCKOUTS = [
+    Knockout("flatten-helper-returns-early", METRICS, _edit_flatten_helper, "metric.source", "returns early"),
     Knockout("reset-intervals-skip-last-pair", METRICS, sub_once("                m_list[j + 1] - m_list[j] for j in range(len(m_list) - 1)", "                m_list[j + 1] - m_list[j] for j in range(len(m_list) - 2)"), "metric.arith", "CircuitMaxEmitResetDepth"),
     Knockout("eff-depth-difference-reversed", METRICS, sub_once("                node_depth_list[j + 1] - node_depth_list[j]", "                node_depth_list[j] - node_depth_list[j + 1]"), "metric.arith", "CircuitMaxEmitEffDepth"),
     Knockout("cnot-count-default-one", METRICS, sub_once("        else:\n            n = 0\n        val = self.n_cnot_penalty(n)", "        else:\n            n = 1\n        val = self.n_cnot_penalty(n)"), "metric.arith", "CircuitCnotCount"),
